@@ -262,6 +262,15 @@ def build_props(flavour):
     return b.exe("props_harness", objs, wrap("malloc", "realloc", "free", "calloc"))
 
 
+def build_sto(flavour):
+    b = Builder(flavour)
+    srcs = DRIVER_COMMON + CORE_PROPS + CORE_PLATFORM + CORE_LOGGER + [
+        "acquire-core-libs/src/acquire-device-hal/device/hal/storage.c",
+        "acquire-core-libs/src/acquire-device-hal/device/hal/driver.c"]
+    objs = b.objs(srcs) + b.objs([harness("sto_harness.cpp")])
+    return b.exe("sto_harness", objs, wrap("open", "pwrite", "close", "flock", "device_manager_get_driver"))
+
+
 TARGETS = {
     "chan": build_chan,
 }
